@@ -115,6 +115,11 @@ def emitted_tags(repo):
             if p.status != 'return' or p.ret is None:
                 continue
             v = p.ret.ast
+            for _ in range(3):
+                g_ = fi.module.constant_binding(v.id) if isinstance(v, ast.Name) else None      # a module-level named constant
+                if g_ is None:
+                    break
+                v = g_
             if isinstance(v, ast.Constant):
                 if isinstance(v.value, str):
                     out.append((v.value, False, fi))
